@@ -140,23 +140,31 @@ class FreshnessDateDataParser:
         date = now + td if sign > 0 else now - td
 
         tz = now.tzinfo
+        # The arithmetic above keeps the reference's UTC offset (pytz) or moves the
+        # wall clock throughout (other zones). Move the wall clock by the calendar
+        # part, look the offset up again, then move the instant by the clock part.
+        # The parts are the units the phrase counts: td has already folded
+        # '24 hours' into a day.
+        clock_units = ("hours", "minutes", "seconds")
+        calendar_part = relativedelta(
+            **{k: v for k, v in kwargs.items() if k not in clock_units}
+        )
+        clock_part = relativedelta(
+            **{k: v for k, v in kwargs.items() if k in clock_units}
+        )
         if hasattr(tz, "localize") and hasattr(tz, "normalize"):
-            # pytz zone: the arithmetic above keeps the reference's UTC offset. Move
-            # the wall clock by the calendar part and look the offset up again, then
-            # move the instant by the clock part. The parts are the units the phrase
-            # counts: td has already folded '24 hours' into a day.
-            clock_units = ("hours", "minutes", "seconds")
-            calendar_part = relativedelta(
-                **{k: v for k, v in kwargs.items() if k not in clock_units}
-            )
-            clock_part = relativedelta(
-                **{k: v for k, v in kwargs.items() if k in clock_units}
-            )
             wall = now.replace(tzinfo=None)
             wall = wall + calendar_part if sign > 0 else wall - calendar_part
             # (a wall clock that occurs twice is the occurrence the reference is in)
             date = tz.localize(wall, is_dst=bool(now.dst()))
             date = tz.normalize(date + clock_part if sign > 0 else date - clock_part)
+        elif tz is not None:
+            date = now + calendar_part if sign > 0 else now - calendar_part
+            offset = date.utcoffset()
+            date = date + clock_part if sign > 0 else date - clock_part
+            if date.utcoffset() != offset:
+                # the wall clock also moved by the change of offset in between
+                date = date + (date.utcoffset() - offset)
         return date, period
 
     def get_kwargs(self, date_string):
